@@ -42,6 +42,7 @@ type stallOps[V any] struct {
 	val    func(id uint64) V
 	setcap func(k, id uint64, capv int64) // the capped insert under test (SetWithCap / Cache.Add)
 	others func(keys []uint64)            // unrelated work on the given keys
+	each   func(f func(k uint64) bool)    // the iteration used to pin a segment (nil: m.ForEach)
 	capv   int64
 }
 
@@ -113,7 +114,11 @@ func stallScenario[V any](what string, o stallOps[V], d int, seed uint64) (strin
 	readerIn, release, readerDone := make(chan struct{}), make(chan struct{}), make(chan struct{})
 	go func() {
 		defer close(readerDone)
-		m.ForEach(func(k uint64, _ V) bool {
+		each := o.each
+		if each == nil {
+			each = func(f func(k uint64) bool) { m.ForEach(func(k uint64, _ V) bool { return f(k) }) }
+		}
+		each(func(k uint64) bool {
 			if k == kX {
 				close(readerIn)
 				<-release
@@ -146,7 +151,9 @@ func stallScenario[V any](what string, o stallOps[V], d int, seed uint64) (strin
 	for !inWalk() {
 		if time.Now().After(deadline) {
 			finish(w1Done)
-			return "setup-failed w1-never-walked", "-"
+			// writer 1 needs only its own segment and the one next to it; neither is the pinned one
+			return "w1-stalled", fail("conc/stall/writer-waited-on-unrelated-lock",
+				"%s: %d segments, segment %d pinned by an iteration callback; a SetWithCap on segment %d did not even get through its own and the next segment within %v", what, nseg, pin%nseg, s1%nseg, setupTimeout)
 		}
 		runtime.Gosched()
 		time.Sleep(50 * time.Microsecond)
@@ -228,6 +235,7 @@ func execStall(a []string) vlib.Res {
 			m:      m,
 			val:    func(id uint64) any { return boxFor(id) },
 			setcap: func(k, id uint64, _ int64) { c.Add(k, boxFor(id)) },
+			each:   func(f func(k uint64) bool) { c.ForEach(func(k uint64, _ any) bool { return f(k) }) },
 			others: func(keys []uint64) {
 				for i, k := range keys {
 					// uncapped inner Set so that these stay local to their segment
@@ -404,4 +412,226 @@ func execDup(a []string) vlib.Res {
 	}
 	impl, or := dupScenario(a[0], vlib.Atoi(a[1]), vlib.AtoU64(a[2]))
 	return vlib.Res{Impl: impl, Oracle: or, Tags: "nt,conc,dup"}
+}
+
+// "A reader waits for the truth; the capacity check sits inside the critical
+// section", judged dynamically with staged arrivals.
+//
+//	mode 0: a busy writer holds the write lock of key K's segment; readers
+//	        (Get / Has) of the stored, untouched key K arrive meanwhile. When
+//	        the writer leaves every one of them must report K present with its
+//	        value: "the segment is busy" is not "the key is absent".
+//	mode 1: the same with the writer only QUEUED for the lock (an iteration
+//	        callback holds the segment's read lock, a Set of another key of the
+//	        segment waits behind it).
+//	mode 2: the table sits W-1 .. 1 below capacity; W writers insert NEW keys
+//	        and arrive while their segments are write-locked. Once all have
+//	        returned (no writer in flight) Len() must be <= capacity: a
+//	        capacity check made before the lock lets all of them through.
+func gateScenario(kind string, mode int, seed uint64) (string, string) {
+	r := vlib.NewR(seed)
+	for id := uint64(1); id <= 12; id++ {
+		boxFor(id)
+	}
+	tokIDs := map[*box]uint64{}
+	for id := uint64(1); id <= 12; id++ {
+		tokIDs[boxFor(id)] = id
+	}
+	g := 2 + r.Intn(3)
+	capv := 6 + r.Intn(20)
+	var (
+		c   *cache.Cache
+		mc  *cache.SegmentUInt64Map[any]
+		sm2 *cache.SegmentUInt64Map[uint64]
+		t   table
+	)
+	if kind == "cache" {
+		c = cache.New(capv)
+		mc = cache.VerifCacheSegMap(c)
+		t = concCacheT{c, tokIDs}
+	} else {
+		sm2 = cache.NewSegmentUInt64Map[uint64](uint8(4+r.Intn(5)), 64)
+		t = segT{sm2}
+	}
+	segOf := func(k uint64) uint {
+		if c != nil {
+			return cache.VerifSegIndex(mc, k)
+		}
+		return cache.VerifSegIndex(sm2, k)
+	}
+	lock := func(k uint64) {
+		if c != nil {
+			cache.VerifSegLock(mc, k)
+		} else {
+			cache.VerifSegLock(sm2, k)
+		}
+	}
+	unlock := func(k uint64) {
+		if c != nil {
+			cache.VerifSegUnlock(mc, k)
+		} else {
+			cache.VerifSegUnlock(sm2, k)
+		}
+	}
+	add := func(k, id uint64) {
+		if c != nil {
+			c.Add(k, boxFor(id))
+		} else {
+			sm2.SetWithCap(k, id, int64(capv))
+		}
+	}
+	used := map[uint64]bool{}
+	fresh := func(ok func(k uint64) bool) uint64 {
+		for {
+			k := r.U64()
+			if r.Bool() {
+				k >>= uint(r.Intn(56))
+			}
+			if !used[k] && ok(k) {
+				used[k] = true
+				return k
+			}
+		}
+	}
+	what := fmt.Sprintf("%s, capacity %d, mode %d", kind, capv, mode)
+	waitAll := func(wg *sync.WaitGroup) bool {
+		done := make(chan struct{})
+		go func() { wg.Wait(); close(done) }()
+		return waitClosed(done, 2*setupTimeout)
+	}
+	settle := func() {
+		for i := 0; i < 50; i++ {
+			runtime.Gosched()
+		}
+		time.Sleep(3 * time.Millisecond)
+	}
+
+	if mode == 0 || mode == 1 {
+		K := fresh(func(uint64) bool { return true })
+		if r.Chance(1, 6) && !used[0] {
+			K = 0
+			used[0] = true
+		}
+		add(K, 1)
+		for i := 0; i < 3; i++ {
+			add(fresh(func(k uint64) bool { return segOf(k) != segOf(K) }), 9)
+		}
+		var wg sync.WaitGroup
+		var misses atomic.Int64
+		var started sync.WaitGroup
+		readers := func() {
+			for i := 0; i < g; i++ {
+				wg.Add(1)
+				started.Add(1)
+				go func(i int) {
+					defer wg.Done()
+					started.Done()
+					var ok bool
+					var v uint64
+					switch {
+					case c != nil:
+						v, ok = t.Get(K)
+					case i%2 == 0:
+						v, ok = sm2.Get(K)
+					default:
+						ok = sm2.Has(K)
+						v = 1
+					}
+					if !ok || v != 1 {
+						misses.Add(1)
+					}
+				}(i)
+			}
+			started.Wait()
+			settle()
+		}
+		if mode == 0 {
+			lock(K)
+			readers()
+			unlock(K)
+		} else {
+			K2 := fresh(func(k uint64) bool { return segOf(k) == segOf(K) })
+			pinned, release := make(chan struct{}), make(chan struct{})
+			wg.Add(1)
+			go func() {
+				defer wg.Done()
+				t.ForEach(func(k, _ uint64) bool {
+					if k == K {
+						close(pinned)
+						<-release
+					}
+					return true
+				})
+			}()
+			if !waitClosed(pinned, setupTimeout) {
+				close(release)
+				return "setup-failed", "-"
+			}
+			wg.Add(1)
+			go func() { defer wg.Done(); add(K2, 2) }() // queues for the write lock behind the pin
+			settle()
+			readers()
+			close(release)
+		}
+		if !waitAll(&wg) {
+			return "deadlock", fail("conc/gate/deadlock", "%s: readers of key %d did not finish", what, K)
+		}
+		if n := misses.Load(); n > 0 {
+			return "miss", fail("conc/gate/present-key-reported-absent",
+				"%s: key %d was stored and untouched the whole time, but %d of %d lookups arriving while its segment was busy (write lock %s) reported it absent or with another value",
+				what, K, n, g, map[int]string{0: "held", 1: "queued for"}[mode])
+		}
+		return "ok", concCheck(what, t, 0, 0)
+	}
+
+	// mode 2
+	w := g
+	fill := capv - 1 - r.Intn(w-1) // Len in [cap-W+1, cap-1]: W new keys must cross the capacity
+	for i := 0; i < fill; i++ {
+		add(fresh(func(uint64) bool { return true }), 9)
+	}
+	if t.Len() > capv {
+		return "setup-failed", "-"
+	}
+	sameSeg := r.Bool()
+	keys := make([]uint64, w)
+	keys[0] = fresh(func(uint64) bool { return true })
+	for i := 1; i < w; i++ {
+		keys[i] = fresh(func(k uint64) bool { return !sameSeg || segOf(k) == segOf(keys[0]) })
+	}
+	lockedSeg := map[uint]uint64{}
+	for _, k := range keys {
+		if _, ok := lockedSeg[segOf(k)]; !ok {
+			lockedSeg[segOf(k)] = k
+			lock(k)
+		}
+	}
+	var wg, started sync.WaitGroup
+	for i := 0; i < w; i++ {
+		wg.Add(1)
+		started.Add(1)
+		go func(i int) { defer wg.Done(); started.Done(); add(keys[i], uint64(2+i)) }(i)
+	}
+	started.Wait()
+	settle()
+	for _, k := range lockedSeg {
+		unlock(k)
+	}
+	if !waitAll(&wg) {
+		return "deadlock", fail("conc/gate/deadlock", "%s: %d writers did not finish", what, w)
+	}
+	if t.Len() > capv {
+		return "over", fail("conc/gate/over-capacity-at-rest",
+			"%s: %d writers inserted new keys into a table holding %d entries; all have returned and Len()=%d > capacity %d",
+			what, w, fill, t.Len(), capv)
+	}
+	return "ok", concCheck(what, t, capv, 0)
+}
+
+func execGate(a []string) vlib.Res {
+	if len(a) != 3 || (a[0] != "cache" && a[0] != "segmap") {
+		return vlib.Res{Impl: "bad-op"}
+	}
+	impl, or := gateScenario(a[0], vlib.Atoi(a[1]), vlib.AtoU64(a[2]))
+	return vlib.Res{Impl: impl, Oracle: or, Tags: "nt,conc,gate"}
 }
